@@ -20,6 +20,7 @@ POOLS = {
  "members": ("members", "", 144, 3000, 20000),
  "life": ("life", "", 144, 3000, 40000),
  "hand": ("hand", "", 144, 3000, 60000),
+ "fault": ("fault", "", 96, 2500, 80000),
 }
 
 
@@ -202,6 +203,7 @@ TABLE_PROPS = {
  "C10": (["C10_"], []),
  "C11": (["C11_"], []),
  "C12": (["C12_"], []),
+ "C13": (["C13_"], []),
  "C14": (["C14_"], []),
  "C15": (["C15_"], []),
 }
@@ -209,10 +211,24 @@ TABLE_PROPS = {
 # models that carry each property (spec, cfg, timeout)
 _HAND_Q = [("HandMC.tla", c, 600) for c in ("Hand_2p.cfg", "Hand_2p_ante.cfg", "Hand_3p.cfg", "Hand_3p_deadsb.cfg", "Hand_3p_deadbtn.cfg")]
 _HAND_T = _HAND_Q + [("HandMC.tla", c, 1800) for c in ("Hand_3p_dealerblind.cfg", "Hand_3p_nosb.cfg", "Hand_4p.cfg")]
+_LIFE_Q = [("TableLife.tla", "TL_fixed_q.cfg", 900), ("TableLife.tla", "TL_live.cfg", 600)]
+_LIFE_T = [("TableLife.tla", "TL_fixed.cfg", 3000), ("TableLife.tla", "TL_live.cfg", 600)]
+_SM_Q = [("SeatManagerMC.tla", "SM_mc3.cfg", 600), ("SeatManagerMC.tla", "SM_mc4.cfg", 900)]
+_SM_T = _SM_Q + [("SeatManagerMC.tla", "SM_mc4sd.cfg", 600), ("SeatManagerMC.tla", "SM_mc5.cfg", 3000)]
 MODELS = {
  "C01": {"quick": _HAND_Q, "thorough": _HAND_T},
  "C10": {"quick": _HAND_Q, "thorough": _HAND_T},
  "C11": {"quick": _HAND_Q, "thorough": _HAND_T},
+ "C13": {"quick": _HAND_Q, "thorough": _HAND_T},
+ "C14": {"quick": _HAND_Q, "thorough": _HAND_T},
+ "C15": {"quick": _HAND_Q, "thorough": _HAND_T},
+ "C07": {"quick": _LIFE_Q, "thorough": _LIFE_T},
+ "C08": {"quick": _LIFE_Q, "thorough": _LIFE_T},
+ "C12": {"quick": _LIFE_Q, "thorough": _LIFE_T},
+ "C03": {"quick": _SM_Q, "thorough": _SM_T},
+ "C05": {"quick": _SM_Q, "thorough": _SM_T},
+ "C02": {"quick": _SM_Q, "thorough": _SM_T},
+ "C06": {"quick": _SM_Q, "thorough": _SM_T},
 }
 
 
